@@ -572,18 +572,19 @@ def specOp (c : Cfg) (st : SpecSt) (op : String) : SpecSt × List Str :=
         let ct := c.specContentType body
         let hdr := if ct ≠ [] then hAdd hdr0 "Content-Type".toList ct else hdr0
         let bodyRec := match body with | none => "nil".toList | some b => bodyRecord b
-        let tail : Str := match f with
-          | .tx => "err=tx tgt=nil".toList
-          | .read => "err=read tgt=nil".toList
-          | .dec => "err=dec tgt=nil".toList
-          | .dect => "err=nil tgt=nil".toList
+        -- (what TargetObject holds after a decoding FAILURE is not prescribed: the untouched target or nil)
+        let tails : List Str := match f with
+          | .tx => ["err=tx tgt=nil".toList]
+          | .read => ["err=read tgt=nil".toList]
+          | .dec => ["err=dec tgt=nil".toList]
+          | .dect => ["err=nil tgt=nil".toList]
           | _ => match parseResp r with
-            | some (v, k) => "err=nil tgt=".toList ++ hex v ++ ':' :: (toString k).toList
-            | none => "err=json tgt=".toList ++ hex cur.1 ++ ':' :: (toString cur.2).toList
-        let outs := (specURLs c ps).map fun u =>
+            | some (v, k) => ["err=nil tgt=".toList ++ hex v ++ ':' :: (toString k).toList]
+            | none => ["err=json tgt=".toList ++ hex cur.1 ++ ':' :: (toString cur.2).toList, "err=json tgt=nil".toList]
+        let outs := (specURLs c ps).flatMap fun u =>
           match urlParse u with
-          | none => "n=0 err=url tgt=nil".toList
-          | some u' => "n=1 ".toList ++ showSent ⟨m, u', 0, hdr, bodyRec⟩ ++ ' ' :: tail
+          | none => ["n=0 err=url tgt=nil".toList]
+          | some u' => tails.map fun tail => "n=1 ".toList ++ showSent ⟨m, u', 0, hdr, bodyRec⟩ ++ ' ' :: tail
         let sentNow := if (specURLs c ps).all (fun u => (urlParse u).isSome) then 1 else 0
         let cur' := match parseResp r with
           | some t => if sentNow = 1 ∧ (f = .none ∨ f = .ser) then t else cur
